@@ -118,6 +118,46 @@ def truth_tables(run):
         expect_err(run, "tick(1, true) and tick(2, %s)" % bad, [1], kind)
         expect_err(run, "tick(1, false) or tick(2, %s)" % bad, [1], kind)
         expect_err(run, "tick(1, [1, 2])?.select(tick(2, %s)).toList()" % bad, [1], kind)
+    # generate(initial, predicate, producer, selector, decycle): per produced element predicate, then selector, then
+    # producer; an element at which generation STOPS (predicate false, or already seen under decycle) gets the
+    # predicate only - the selector runs for produced elements only
+    def generate_log(init, limit, mod, decycle, with_selector, take=None):
+        log, x, seen, n = [0], init, set(), 0
+        while True:
+            log.append(1)
+            if not x < limit:
+                break
+            if decycle:
+                if x in seen:
+                    break
+                seen.add(x)
+            if with_selector:
+                log.append(3)
+            n += 1
+            if take is not None and n >= take:
+                break
+            log.append(2)
+            x = (x * 2) % mod
+        return log
+    for init, limit, mod, dec, sel in [(1, 20, 6, True, True), (1, 20, 6, True, False), (1, 10, 100, False, True),
+                                       (1, 10, 100, True, True), (3, 20, 6, True, True), (5, 3, 7, True, True)]:
+        text = "generate(tick(0, %d), tick(1, $) < %d, tick(2, ($ * 2) mod %d)%s%s).toList()" % (
+            init, limit, mod, ", tick(3, $ * 10)" if sel else "", ", decycle => true" if dec else "")
+        expect(run, text, generate_log(init, limit, mod, dec, sel))
+    # a lazy parameter passed BY KEYWORD (multi-word, convention-translated name) stays lazy: once per element, in the
+    # element's scope - and never when there is no element
+    expect(run, "[].distinct(keySelector => tick(1, $))", [])
+    expect(run, "[3, 1, 3].distinct(keySelector => tick(1, $)).toList()", [1, 1, 1])
+    expect(run, "[].toDict(keySelector => tick(1, $), valueSelector => tick(2, $))", [])
+    expect(run, "[1, 2].toDict(keySelector => tick(1, $), valueSelector => tick(2, $))", [1, 2, 1, 2])
+    expect(run, "[].groupBy(keySelector => tick(1, $))", [])
+    expect(run, "{a => 1}.mergeWith({b => 2}, itemMerger => tick(1, $1))", [])
+    expect(run, "{a => [1]}.mergeWith({b => [2]}, listMerger => tick(1, $1))", [])
+    expect(run, "[].orderBy(selector => tick(1, $)).toList()", [])
+    expect(run, "[].select(selector => tick(1, $)).toList()", [])
+    expect(run, "[].where(predicate => tick(1, $)).toList()", [])
+    expect(run, "[].takeWhile(predicate => tick(1, $)).toList()", [])
+    expect(run, "[].selectMany(selector => tick(1, $)).toList()", [])
     # per-element lambdas: once per element consumed
     expect(run, "[1, 2, 3].select(tick(1, $)).where(tick(2, $ > 1)).first()", [1, 2, 1, 2])
     expect(run, "[1, 2, 3].where(tick(1, $ > 0)).any(tick(2, $ > 1))", [1, 2, 1, 2])
@@ -191,8 +231,55 @@ def registry_sweep(run, deep):
     run.note("registry sweep: %d successful ticked calls over %d names" % (ok_calls, len(names)))
 
 
+def lazy_keyword_sweep(run):
+    """Every stdlib method whose receiver is a collection and that has lambda parameters: called on an EMPTY collection
+    with each lambda parameter passed by its keyword name, no lambda may run (there is no element to apply it to)."""
+    import yaql
+    from yaql.language import yaqltypes, specs
+    ctx = yaql.create_context()
+    eng = ec.engine()
+    seen = set()
+    c = ctx
+    n = 0
+    while c is not None:
+        for name, fds in getattr(c, "_functions", {}).items():
+            for fd in fds:
+                if id(fd) in seen or not fd.is_method or not name[0].isalpha():
+                    continue
+                seen.add(id(fd))
+                params = sorted([p for k, p in fd.parameters.items() if p.position is not None and k != "*"
+                                 and not isinstance(p.value_type, yaqltypes.HiddenParameterType)], key=lambda p: p.position)
+                if len(params) < 2:
+                    continue
+                try:
+                    if not params[0].value_type.check((), ctx, eng):
+                        continue
+                except Exception:
+                    continue
+                lazies = [p for p in params[1:] if isinstance(p.value_type, yaqltypes.Lambda)]
+                others = [p for p in params[1:] if not isinstance(p.value_type, yaqltypes.Lambda)]
+                if not lazies or any(p.default is specs.NO_DEFAULT for p in others):
+                    continue
+                text = "[].%s(%s)" % (name, ", ".join("%s => tick(%d, $)" % (p.alias or p.name, i + 1) for i, p in enumerate(lazies)))
+                log, r = ec.run_real(text, None)
+                if r[0] == "err" and r[1] in ("KRes",):
+                    continue
+                n += 1
+                run.case(("lazykw", text), nontrivial=True)
+                run.count("lazy_keyword_call")
+                # draining a lazy result must not run the lambdas either
+                if r[0] == "ok" and log:
+                    run.fail("violation", "a lambda passed by keyword was evaluated although the collection is empty "
+                                          "(a lazily evaluated parameter was evaluated eagerly)",
+                             {"program": text, "observed_log": log, "required_log": []})
+                    return
+        c = c.parent
+    run.note("lazy-keyword sweep: %d calls" % n)
+
+
 def oracle(run, deep):
     truth_tables(run)
+    lazy_keyword_sweep(run)
     registry_sweep(run, deep)
 
 
